@@ -741,3 +741,94 @@ def gen_model(rng):
     if rng.random() < 0.1:
         s = s.rstrip("\n")     # no final newline
     return s
+
+
+# ------------------------------------------------------------------ models for edit chains
+
+def _interleaved(rng, counter, allow_verbatim=True, indent=""):
+    """0-3 non-statement lines: standalone comment lines, verbatim lines, blank lines (each comment/verbatim is unique)."""
+    out = ""
+    for _ in range(rng.choice([0, 1, 1, 1, 2, 3])):
+        counter[0] += 1
+        r = rng.random()
+        if r < 0.45:
+            out += indent + rng.choice(["; --- note %d ---", ";c%d", ";; section %d", "  ; indented %d", ";%d $THETA in comment"]) % counter[0] + "\n"
+        elif r < 0.7 and allow_verbatim:
+            out += rng.choice(["\"  WRITE (*,*) %d", "\" X%d = 1 ; not a comment", "\"FIRST%d"]) % counter[0] + "\n"
+        else:
+            out += rng.choice(["\n", "\n", "  \n", "\t\n"])
+    return out
+
+
+def gen_chain_model(rng):
+    """A valid model whose code records carry comment / verbatim / blank lines in every position:
+    before the first statement, before and between statements, inside a block IF, at the end of the record."""
+    counter = [0]
+    nth = rng.randint(2, 4)
+    neta = rng.randint(1, min(2, nth))
+    pred = rng.random() < 0.5
+    names = ["TVCL", "TVV", "TVKA", "TVQ"][:nth]
+    s = rng.choice(["$PROBLEM chain\n", "$PROB  edit chain ; title\n"])
+    s += "$INPUT ID TIME AMT WGT APGR DV\n$DATA nonexistent_c03.csv IGNORE=@\n"
+    eol = lambda: rng.choice(["", "", "", " ; eol %d" % rng.randint(100, 999), "\t;x"])
+    sp = lambda: rng.choice(["", " "])
+    body = ""
+    for i, nm in enumerate(names, start=1):
+        body += _interleaved(rng, counter)
+        a = sp()
+        body += rng.choice(["", "", "  "]) + f"{nm}{a}={a}THETA({i})" + rng.choice(["", "*WGT", "*2"]) + eol() + "\n"
+    body += _interleaved(rng, counter)
+    pars = []
+    for i, (nm, p) in enumerate(zip(names, ["CL", "V", "KA", "Q"]), start=1):
+        if rng.random() < 0.6:
+            body += _interleaved(rng, counter)
+        e = f"*EXP(ETA({i}))" if i <= neta else ""
+        body += f"{p} = {nm}{e}" + eol() + "\n"
+        pars.append(p)
+    if rng.random() < 0.5:
+        body += _interleaved(rng, counter)
+        body += f"IF (APGR.LT.{rng.randint(2, 9)}) THEN" + eol() + "\n"
+        body += _interleaved(rng, counter, allow_verbatim=False, indent="  ")
+        body += f"  BLK1 = {pars[0]}*1.5" + eol() + "\n"
+        body += _interleaved(rng, counter, allow_verbatim=False, indent="  ")
+        body += f"  BLK2 = 2\nELSE\n  BLK1 = {pars[0]}\n"
+        body += _interleaved(rng, counter, allow_verbatim=False, indent="  ")
+        body += "  BLK2 = 3\nENDIF\n"
+    if rng.random() < 0.3:
+        body += _interleaved(rng, counter)
+        body += f"IF (WGT.GT.{rng.randint(1, 5)}) LGC = {pars[-1]} + 1" + eol() + "\n"
+    err = _interleaved(rng, counter)
+    err += rng.choice(["IPRED = F\n", "IPRED = F ; ipred\n"])
+    err += _interleaved(rng, counter)
+    err += "W = " + rng.choice(["F", "IPRED", "IPRED*0.1"]) + eol() + "\n"
+    err += _interleaved(rng, counter)
+    err += "Y = IPRED + W*EPS(1)" + eol() + "\n"
+    err += _interleaved(rng, counter)
+    if pred:
+        s += "$PRED" + rng.choice(["\n", " ; pred\n", "\n\n"]) + body
+        s += _interleaved(rng, counter) + "F = " + "+".join(pars) + eol() + "\n" + err
+    else:
+        s += "$SUBROUTINES ADVAN1 TRANS2\n$PK" + rng.choice(["\n", " ; pk\n"]) + body
+        if "V" not in pars:
+            s += "V = 3\n"
+        s += _interleaved(rng, counter) + "S1 = V\n" + _interleaved(rng, counter)
+        s += "$ERROR" + rng.choice(["\n", "\n\n", " ; err\n"]) + err
+    for i in range(1, nth + 1):
+        s += f"$THETA (0,{rng.choice(['0.1', '1', '2.5'])}) ; TH{i}\n"
+    for i in range(neta):
+        s += "$OMEGA 0.1\n"
+    s += "$SIGMA 0.1\n$ESTIMATION METHOD=1 INTER\n"
+    # the chain: 2-4 steps of 1-2 statement edits
+    steps = []
+    for _ in range(rng.randint(2, 4)):
+        step = []
+        for _ in range(rng.choice([1, 1, 2])):
+            r = rng.random()
+            if r < 0.55:
+                step.append(["mod", rng.randrange(64), rng.choice(["*2", "+1", "*WGT", "-0.5"])])
+            elif r < 0.8:
+                step.append(["ins", rng.randrange(64)])
+            else:
+                step.append(["del", rng.randrange(64)])
+        steps.append(step)
+    return s, steps
